@@ -15,9 +15,9 @@ def initOf : String → Init
   | "one" => .one
   | _ => .absent
 
-def reset : List String → St
-  | [m, i] => init (modeOf m) (initOf i)
-  | _ => init .noCheck .absent
+def reset : List String → FSt
+  | [m, i] => initF (modeOf m) (initOf i)
+  | _ => initF .noCheck .absent
 
 def opOf : String → Option Op
   | "begin" => some .begin
@@ -46,6 +46,7 @@ def showRes : Res → String
   | .okB false => "ok false"
   | .noHandle => "nohandle"
   | .err e => "err:" ++ showErr e
+  | .panic => "panic"
 
 def showW : W → String
   | .srAdd => "sr.add" | .srUpd => "sr.upd" | .srRem => "sr.rem" | .regAdd => "reg.add" | .regUpd => "reg.upd"
@@ -53,21 +54,40 @@ def showW : W → String
 
 def showWs (w : List W) : String := if w.isEmpty then "-" else ",".intercalate (w.map showW)
 
-def showSeen (s : St) : String :=
-  if s.dirty then "skipped"
-  else match seen s with
+def showSeen (s : FSt) : String :=
+  if s.st.dirty then "skipped"
+  else if s.blur then "*"
+  else match seen s.st with
     | .absent => "absent"
     | .present c => s!"exists count={c}"
 
-def step' (s : St) (ws : List String) : St × String :=
+/-- `op` or `op!<plan>`: the plan (which backend call was failed) is for the replay file; the model reads the
+failure pattern from the second word -/
+def opName (tok : String) : String := (tok.splitOn "!").headD ""
+
+def fxOf (w : String) : Fx :=
+  let cs := w.splitOn ","
+  { work := cs.contains "work", work2 := cs.contains "work2", undo := cs.contains "undo", quiet := cs.contains "quiet" }
+
+def showOut (s' : FSt) (r : Res) (w : Option (List W)) : String :=
+  let ws := match w with | none => "*" | some l => showWs l
+  s!"{showRes r} pd={s'.st.pd} c={b01 s'.st.committed} dirty={b01 s'.st.dirty} w={ws}"
+
+def step' (s : FSt) (ws : List String) : FSt × String :=
   match ws with
   | ["observe"] => (s, showSeen s)
   | [o] =>
-    match opOf o with
+    match opOf (opName o) with
     | none => (s, "bad-op")
     | some op =>
-      let (s', r, w) := step s op
-      (s', s!"{showRes r} pd={s'.pd} c={b01 s'.committed} dirty={b01 s'.dirty} w={showWs w}")
+      let (s', r, w) := stepF s op Fx.none
+      (s', showOut s' r w)
+  | [o, f] =>
+    match opOf (opName o) with
+    | none => (s, "bad-op")
+    | some op =>
+      let (s', r, w) := stepF s op (fxOf f)
+      (s', showOut s' r w)
   | _ => (s, "bad-op")
 
 def run : IO Unit := runLoop reset step'
